@@ -632,12 +632,20 @@ impl Oracle {
             let accepted: Option<Vec<u8>> = if self.has_mod {
               match env.verdict.clone().unwrap_or(VerdictS::Valid) {
                 VerdictS::Valid => Some(payload.clone()),
+                // an alteration to nothing cannot be carried by a MESSAGE: it is no valid answer (fail-closed)
+                VerdictS::Altered(p) if p.is_empty() => None,
                 VerdictS::Altered(p) => Some(p),
                 _ => None,
               }
             } else {
               Some(payload.clone())
             };
+            if acked && accepted.is_none() {
+              fails.push(format!(
+                "C08: BROADCAST id={id} was acknowledged although the modulator did not declare the payload valid (verdict {:?})",
+                env.verdict
+              ));
+            }
             let from = format!("{u}@{}", self.domain);
             let h = handler_of(chan, &self.domain);
             let mut delivered: BTreeMap<usize, usize> = BTreeMap::new();
@@ -706,6 +714,13 @@ impl Oracle {
                         let closed = got.get(&k2).is_some_and(|g| g.1);
                         if got_it && !allowed {
                           fails.push(format!("C03: member {m} received a payload of {h} although the reported read list {rl:?} does not permit it"));
+                        }
+                        if !got_it && allowed && closed {
+                          // the only alternative to the delivery is a disconnect with an outbound-queue error
+                          let queue_full = got.get(&k2).is_some_and(|g| g.0.iter().any(|f| matches!(&f.msg, Message::Error(p) if p.reason.as_ref() == "OUTBOUND_QUEUE_FULL")));
+                          if !queue_full {
+                            fails.push(format!("C02: [receiver-dropped] BROADCAST id={id} on {h} was acknowledged; connection {k2} of read-permitted member {m} received no MESSAGE and was disconnected without an outbound-queue error"));
+                          }
                         }
                         if !got_it && allowed && !closed {
                           fails.push(format!("C03: member {m} (connection {k2}) got nothing from an acknowledged broadcast on {h} although the reported read list {rl:?} permits it"));
